@@ -152,5 +152,8 @@ SSpec == AInit /\ [][FALSE]_<<avars, vars>>
 \* ---- C08: every available location is a line on which a token of the program text stands --------------
 TokLines(q) == {<<Progs[q].toklines[i][1], Progs[q].toklines[i][2]>> : i \in DOMAIN Progs[q].toklines}
 LocsRealInv == \A loc \in Locs(p) : loc \in TokLines(p)
+\* the public list of available locations (Program::getAvailableBreakpoints) is exactly the domain of the location table
+Avail(q) == {<<Progs[q].avail[i][1], Progs[q].avail[i][2]>> : i \in DOMAIN Progs[q].avail}
+AvailInv == Avail(p) = Locs(p)
 AView == <<p, aip, astack>>
 =============================================================================
